@@ -10,6 +10,7 @@ import (
 	"github.com/golang/protobuf/proto"
 	"github.com/openacid/slim/index"
 	"github.com/openacid/slim/trie"
+	"github.com/openacid/slim/xsimrt"
 )
 
 // A Unit is the thing that must behave as if alone: one API call, or the whole
@@ -107,7 +108,11 @@ type offsetReader struct{}
 // Read is the DataReader of the simulated record file: the record at an offset
 // is the offset itself and the key that was asked for.
 func (offsetReader) Read(offset int64, key string) (string, bool) {
-	return strconv.FormatInt(offset, 10) + "@" + key, offset%5 != 3
+	// the read takes time: whoever the scheduler picks runs while it is in flight
+	xsimrt.Yield(siteReaderIO)
+	v := strconv.FormatInt(offset, 10) + "@" + key
+	xsimrt.Yield(siteReaderIO)
+	return v, offset%5 != 3
 }
 
 func indexOf(st *trie.SlimTrie) *index.SlimIndex {
@@ -574,6 +579,7 @@ type UnitMix struct {
 	Heavy     bool // marshal/protomarshal allowed often
 	IntWidth  int  // 1,2,4,8 if values are little-endian ints of that width; 0 otherwise
 	Index     bool // reads through index.SlimIndex as well (the index of the subject is made before the concurrent phase)
+	IdxHeavy  bool // ... and mostly so
 	ScanLimit int
 }
 
@@ -605,6 +611,9 @@ func genUnit(r *Rng, qs [][]byte, mix UnitMix) Unit {
 		w["geti64"] = 6
 		if mix.Index {
 			w["idxget"], w["idxrangeget"] = 4, 4
+			if mix.IdxHeavy {
+				w["idxget"], w["idxrangeget"] = 30, 40
+			}
 		}
 	}
 	ws := make([]int, len(unitKinds))
